@@ -229,5 +229,10 @@ def run(rep, facts, tier):
                 continue
             G.check_fwd(rep, cfg, path, b, tr, sorts, loc, "C12")
     c02.from_bigint_rule(rep, A)
+    # both wrappers implement the same primitives (limb plumbing, byte primitives) against the same specified shapes
+    from . import c11
+    for cfg in (A, M):
+        c11.limb_glue(rep, cfg)
+        c11.wrapper_primitives(rep, cfg)
     c04.ideal_rule(rep, M)
     c05.ladder(rep, M)
